@@ -402,6 +402,9 @@ pub fn run_conc(prop: &'static str, plan_v: &Value) -> RunOutcome {
         h.sched.push_u64(match pick { Ent::Client(i) => i as u64, Ent::Writer(w) => 100 + w, Ent::Timer => 200, Ent::Flush => 201 });
         match pick {
             Ent::Timer => {
+                if trace {
+                    eprintln!("step {step}: timer");
+                }
                 h.tick();
                 timer_fires += 1;
             }
@@ -414,6 +417,9 @@ pub fn run_conc(prop: &'static str, plan_v: &Value) -> RunOutcome {
                     None => {
                         // blocked on a lock that a not-yet-polled client task was granted
                         h.probe("writer_blocked_on_lock_held_by_unpolled_client");
+                        if trace {
+                            eprintln!("step {step}: writer {w} blocked (no hook point reached within 300 ms)");
+                        }
                         blocked_writers.insert(w);
                         continue;
                     }
@@ -465,12 +471,18 @@ pub fn run_conc(prop: &'static str, plan_v: &Value) -> RunOutcome {
                 if writer_in_txn && clients[i].running.as_ref().map(|r| r.txn.is_none()).unwrap_or(false) {
                     reads_inside_txn += 1;
                 }
+                if trace {
+                    eprintln!("step {step}: poll client {i}");
+                }
                 // poll once
                 let polled = {
                     let c = &mut clients[i];
                     let r = c.running.as_mut().unwrap();
                     let mut cx = Context::from_waker(&c.waker);
-                    crate::util::catch(|| r.fut.as_mut().poll(&mut cx))
+                    h.gate.set_client_polling(true);
+                    let res = crate::util::catch(|| r.fut.as_mut().poll(&mut cx));
+                    h.gate.set_client_polling(false);
+                    res
                 };
                 h.gate.wait_readers_idle();
                 // a writer that was blocked on a lock this client held may run now: wait until it parks
